@@ -91,7 +91,8 @@ def c20_case(draw):
                 thousands=draw(st.booleans()),
                 copies=draw(st.sampled_from([0, 0, 2, 3])),
                 tricky_names=draw(st.sampled_from([False, False, True])),
-                player_order=draw(st.sampled_from([0, 0, 1, 2, 3, 4])))
+                player_order=draw(st.sampled_from([0, 0, 1, 2, 3, 4])),
+                cap=draw(st.booleans()), scaled=draw(st.booleans()))
 
 
 def budget(tier):
@@ -209,6 +210,10 @@ def check(case, stats):
                                    bool(case.get('tricky_names')))
         if case.get('tricky_names'):
             stats.count('class:tricky_names')
+        if site == 'full_tilt' and case.get('cap') and cfg.get('chip') == 'int':
+            # a "Cap" table whose cap is above every stack (no effect)
+            rec['cap'] = 2 * max(rec['stacks'])
+            stats.count('class:full_tilt_cap_table')
         if site == 'ipoker' and case.get('player_order'):
             rec['player_order'] = case['player_order']
             stats.count('class:ipoker_players_in_any_order')
@@ -297,6 +302,54 @@ def check(case, stats):
                          f' {final.status}), the log with {list(s.stacks)};'
                          f' actions {hh.actions}'))
             return out
+        # the caller's value parser is used for every amount: importing with
+        # a parser that counts in hundredths gives the same hand, times 100
+        if case.get('scaled'):
+            from pokerkit.utilities import parse_value as _pv
+
+            def cents(text):
+                return _pv(text) * 100
+
+            try:
+                sc = list(importer(log, parse_value=cents,
+                                   error_status=True))
+            except Exception as e:  # noqa: BLE001
+                if not _is_engine_exception(e):
+                    raise
+                out.append(V(ID, 'custom_value_parser', site,
+                             f'importable log fails with a value parser in'
+                             f' hundredths: {type(e).__name__}:'
+                             f' {str(e)[:200]}'))
+                return out
+            stats.count('class:custom_value_parser')
+
+            def times100(actions):
+                res = []
+                for a in actions:
+                    w = a.split()
+                    if len(w) >= 3 and w[1] == 'cbr':
+                        w[2] = str(_pv(w[2]) * 100)
+                    res.append(' '.join(w))
+                return res
+            ok_ = len(sc) == 1 and \
+                [x * 100 for x in hh.starting_stacks] == list(
+                    sc[0].starting_stacks) and \
+                [x * 100 for x in hh.blinds_or_straddles] == list(
+                    sc[0].blinds_or_straddles) and \
+                [str(_pv(w)) for w in []] == [] and \
+                times100(hh.actions) == [
+                    ' '.join(str(_pv(t)) if i == 2 and a.split()[1] == 'cbr'
+                             else t for i, t in enumerate(a.split()))
+                    for a in sc[0].actions]
+            if not ok_:
+                out.append(V(ID, 'custom_value_parser', site,
+                             f'with a value parser in hundredths: stacks'
+                             f' {sc[0].starting_stacks if sc else None} blinds'
+                             f' {sc[0].blinds_or_straddles if sc else None}'
+                             f' actions {sc[0].actions if sc else None};'
+                             f' default parser: {hh.starting_stacks}'
+                             f' {hh.blinds_or_straddles} {hh.actions}'))
+                return out
         # a file with several hands: each hand imports as it does alone
         # (nothing carries over from the hand before)
         copies = case.get('copies') or 0
